@@ -31,11 +31,18 @@ def operand(src: str, k: int, rnd: random.Random, op: str, pos: int):
         return (rnd.choice(["LT", "GT", "SLT", "SGT", "EQ"]), ("in", k), ("c", rnd.choice([0, 1, 5, 2**255])))
     if src == "bc":
         return rnd.choice([("EQ", ("c", 1), ("c", 1)), ("LT", ("c", 2), ("c", 1)), ("ISZERO", ("c", 0)), ("ISZERO", ("c", 9))])
+    if src == "bT":  # the literal true / false (a boolean shortcut may treat the two literals differently)
+        return rnd.choice([("EQ", ("c", 1), ("c", 1)), ("ISZERO", ("c", 0))])
+    if src == "bF":
+        return rnd.choice([("LT", ("c", 2), ("c", 1)), ("ISZERO", ("c", 9))])
     raise ValueError(src)
 
 
 def fam_oneop(rnd: random.Random, op: str, srcs: tuple, ninputs: int = 6):
     n = len(srcs)
+    if "bc" in srcs and len(srcs) == 2:
+        # both literals, in turn: fam_oneop is called once per literal by all_oneop
+        raise ValueError("use bT / bF")
     ex = tuple(operand(s, i, rnd, op, i) for i, s in enumerate(srcs))
     code = assemble(compile_expr((op, *ex)) + [("PUSH", 0), "MSTORE", ("PUSH", 32), ("PUSH", 0), "RETURN"])
     names = [f"cd{i}" for i in range(3)]
@@ -54,11 +61,16 @@ def all_oneop(rnd: random.Random, per_combo: int = 1, ninputs: int = 6, sources=
         for s in sources:
             for _ in range(per_combo):
                 out.append(fam_oneop(rnd, op, (s,), ninputs))
+    def expand(s):
+        return ("bT", "bF") if s == "bc" else (s,)
+
     for op in OPS2:
         for s1 in sources:
             for s2 in sources:
-                for _ in range(per_combo):
-                    out.append(fam_oneop(rnd, op, (s1, s2), ninputs))
+                for t1 in expand(s1):
+                    for t2 in expand(s2):
+                        for _ in range(per_combo):
+                            out.append(fam_oneop(rnd, op, (t1, t2), ninputs))
     for op in OPS3:
         for combo in [("c", "c", "c"), ("s", "s", "s"), ("c", "s", "c"), ("s", "c", "s"), ("s", "s", "c"), ("c", "c", "s"),
                       ("bs", "s", "s"), ("s", "bc", "s"), ("s", "s", "bs")]:
